@@ -278,7 +278,7 @@ theorem story_send (hsh : (base.find "storyBody").isSome = true) :
       (specIds .StorySend "story" (namedOf .StorySend base) (keysOf "story" rc.kids)) := by
   obtain ⟨story, hconv, htag⟩ := convertStorySend_ok base hsh
   simp only [mergeRc, specIds, namedOf, Kind.group, hconv]
-  rw [findChildId_ok "story" rc.kids _ g.wf]
+  rw [findChildId_ok "story" rc.kids _]
   by_cases hm : elemId (some story) "storyID" ∈ keysOf "story" rc.kids
   · rw [g.locate_mem hm]
     simp only [pyInsert_eq_insertAt]
